@@ -120,9 +120,17 @@ TStructure ==
   /\ StructuralClauses(Ev)
   /\ UNCHANGED ovars
 
+(* "runtime" traces (one event): the compiled right-hand sides / Jacobians of the cvode-dense and the odeint back-end were evaluated at
+   the same states with the same parameters (uncleared output vectors, as the integrators hand them over) and compared entry by entry *)
+TRuntime ==
+  /\ IsEv("Runtime")
+  /\ Chk("BackendsAgreeAtRunTime", Ev.ydot_same)
+  /\ Chk("JacobiansAgreeAtRunTime", Ev.jac_same)
+  /\ UNCHANGED ovars
+
 TSilent == (SkipEmpty \/ Wrap) /\ UNCHANGED <<tid, l>>
 
-TNext == TReaction \/ TModifier \/ THeat \/ TCool \/ TFinish \/ TStructure \/ TSilent \/ TObserved
+TNext == TReaction \/ TModifier \/ THeat \/ TCool \/ TFinish \/ TStructure \/ TRuntime \/ TSilent \/ TObserved
 TSpec == TInit /\ [][TNext]_<<ovars, tid, l>>
 
 (* C04 on the observed, accepted state: weights = what the REAL Species objects report (elements, charge) *)
